@@ -55,6 +55,8 @@ def verlet_case(draw):
         "x": draw(fl(0.01, 0.3)), "steps": draw(st.integers(1, 50)),
         # the calculator may hold results of an earlier configuration when the integration starts
         "stale": draw(st.booleans()),
+        # construct the integrator with another time step and re-tune the public `dt` attribute afterwards
+        "retune_dt": draw(st.sampled_from([None, None, 0.5, 3.0])),
     }
 
 
@@ -83,6 +85,16 @@ def setup_verlet(case):
     return atoms, ctx, dt_fs
 
 
+def make_verlet(case, dt_fs, n):
+    from quansino.integrators.displacement import Verlet
+
+    if case.get("retune_dt"):
+        v = Verlet(dt=dt_fs * case["retune_dt"], max_steps=n)
+        v.dt = dt_fs * fs  # the attribute is kept in ASE time units
+        return v
+    return Verlet(dt=dt_fs, max_steps=n)
+
+
 def run_verlet(case):
     from quansino.integrators.displacement import Verlet
 
@@ -93,7 +105,7 @@ def run_verlet(case):
             atoms, ctx, dt_fs = setup_verlet(case)
             n = case["steps"]
             x0, p0 = atoms.positions.copy(), atoms.get_momenta().copy()
-            v = Verlet(dt=dt_fs, max_steps=n)
+            v = make_verlet(case, dt_fs, n)
             v.integrate(ctx)
             x1, p1 = atoms.positions.copy(), atoms.get_momenta().copy()
             atoms.set_momenta(-p1)
@@ -121,7 +133,7 @@ def run_verlet(case):
             warnings.simplefilter("ignore")
             a2, c2, _ = setup_verlet(dict(case, stale=False))
             e_start = a2.get_total_energy()
-            one = Verlet(dt=dt, max_steps=1)
+            one = make_verlet(case, dt, 1)
             worst = 0.0
             for i in range(nsteps):
                 one.integrate(c2)
